@@ -364,5 +364,42 @@ func c17Catalogue(c *fw.Ctx, engines []string) {
 	run(item, []bt.Op{{Kind: "DropRowRange", Table: tblT, Prefix: []byte("r1")}, {Kind: "ReadRows", Table: tblT, Limit: 150}})
 	item++
 	run(item, []bt.Op{{Kind: "ModifyFamilies", Table: tblT, Mods: []bt.Mod{{ID: "f", Op: "drop"}}}, {Kind: "SampleRowKeys", Table: tblT, Coins: []bool{false, true}}, {Kind: "ModifyFamilies", Table: tblT, Mods: []bt.Mod{{ID: "f", Op: "create"}}}, {Kind: "ReadRows", Table: tblT}})
+	// 1 100 rows (beyond 256 / 512 / 1 000 / 1 024): scans that must STOP at a row in the middle - a filter that is invalid
+	// only on one row (the scan fails there on every engine, whatever batches the engine reads in), limits around powers of two
+	long = nil
+	for i := 0; i < 1100; i++ {
+		long = append(long, fmt.Sprintf("r%04d", i))
+	}
+	setup = append(setupT(), populate(long, 1)[1:]...)
+	k4 := func(i int) string { return fmt.Sprintf("r%04d", i) }
+	var fr []bt.Op
+	for _, at := range []int{0, 10, 99, 100, 255, 256, 257, 511, 512, 600, 1023, 1024, 1099} {
+		bad := []*bt.Filter{
+			{Kind: "cond", Pred: re("key_re", k4(at)), True: fn("row_limit", -1), False: &bt.Filter{Kind: "pass", B: true}},
+			{Kind: "chain", Subs: []*bt.Filter{re("key_re", k4(at)), re("val_re", "(")}},
+			{Kind: "interleave", Subs: []*bt.Filter{{Kind: "pass", B: true}, {Kind: "chain", Subs: []*bt.Filter{re("key_re", k4(at)), {Kind: "pass"}}}}},
+		}
+		for _, f := range bad {
+			fr = append(fr, bt.Op{Kind: "ReadRows", Table: tblT, Filter: f},
+				bt.Op{Kind: "ReadRows", Table: tblT, Filter: f, HasRowSet: true, Ranges: []bt.Range{{SK: 1, S: []byte(k4(5))}}, Limit: int64(at + 3)},
+				bt.Op{Kind: "ReadRows", Table: tblT, Filter: f, HasRowSet: true, Ranges: []bt.Range{{EK: 2, E: []byte(k4(at))}, {SK: 2, S: []byte(k4(at))}}})
+		}
+		fr = append(fr, bt.Op{Kind: "ReadRows", Table: tblT, Limit: int64(at + 1)},
+			bt.Op{Kind: "ReadRows", Table: tblT, Filter: re("key_re", k4(at)+"|"+k4(1099-at))})
+	}
+	for i := 0; i < len(fr); i += 12 {
+		item++
+		run(item, fr[i:min(i+12, len(fr))])
+	}
+	// one MutateRows of 1 200 entries in which some rows occur twice (the second entry builds on the first), then reads
+	var ents []bt.Entry
+	for i := 0; i < 1200; i++ {
+		key := k4(i % 1150)
+		ents = append(ents, bt.Entry{Key: []byte(key), Muts: []bt.Mut{mset("g", fmt.Sprintf("q%d", i/1150), 2000, fmt.Sprintf("v%d", i))}})
+	}
+	ents = append(ents, bt.Entry{Key: []byte(k4(7)), Muts: []bt.Mut{{Kind: "delrow"}}}, bt.Entry{Key: []byte(k4(7)), Muts: []bt.Mut{mset("f", "again", 3000, "z")}})
+	item++
+	run(item, []bt.Op{{Kind: "MutateRows", Table: tblT, Entries: ents}, {Kind: "ReadRows", Table: tblT}, {Kind: "DropRowRange", Table: tblT, Prefix: []byte("r00")}, {Kind: "ReadRows", Table: tblT, Limit: 300}})
 	c.Bound("catalogue_reads", len(reads))
+	c.Bound("long_table_rows", len(long))
 }
